@@ -8,6 +8,10 @@ NOTE_COMMON = ("Trusted base: go/packages + go/types + go/ssa of golang.org/x/to
                "so a large refactoring can raise an alarm although behaviour is preserved.")
 
 claimed = {
+ "C04": dict(
+   text="Decides table agreement of the tokenizer for all inputs: regular-character and white-space classes, the literal-string escape table, octal escapes, CR/LF normalisation flags, nesting of parentheses, hexadecimal and ASCII85 digit classes/values/radix/padding are evaluated for every byte value from the type-checked source and compared with the PLRM; writer ⊆ reader⁻¹ for String.PS over all 512 (byte, balance) cases; Name.PS uses the scanner's own classifier; number-capable tokens reach the number parser; CR LF is one line end in comments; DSC comments are appended only after an error-free run. Token-boundary behaviour and number syntax themselves are not decided.",
+   technique="static analysis: exhaustive byte-domain evaluation of pure classifier code extracted from the type-checked AST, compared with specification tables and between reader and writer",
+   ref="DESIGN.md §5 C04"),
  "C05": dict(
    text="Decides the table and shape clauses of eexec transparency for all inputs: cipher constants equal the Adobe values in both packages; the decryption step has the specified data flow with ciphertext feedback (canonical term comparison); the pre-ciphertext white-space set, the hex/binary detection set and the two hex de-armouring classifiers are evaluated over all 256 byte values and equal the specification; four lead bytes are discarded; the eexec operator pushes systemdict, refuses nesting, ends decryption and restores the dictionary stack to the captured length on every normal completion, maps exactly io.EOF to completion; readstring skips exactly one byte and reads from the current scanner. Does not decide equality of effects with the plaintext run nor peek/replay across refills.",
    technique="static analysis: go/types constants, canonical symbolic terms of straight-line cipher code, exhaustive byte-domain evaluation of comparison-only classifiers, go/ssa dominance rules for the operator",
